@@ -23,6 +23,9 @@ package genesis
 //@   trusted
 //@   ensures result == nil <==> g.okPlasma
 //@   modifies nothing
+// checked on the body: the contract records the magnitude of an amount, so only non-negative amounts may enter the signed sum
+// that is compared with the contract's balance (an entry of +700 and one of -200 must not "add up" to a balance of 500)
+//@   at-call Add assert[only-non-negative-fused-amounts-enter-the-sum] val(arg2) >= 0
 //@ func CheckSwapAccount(g)
 //@   trusted
 //@   ensures result == nil <==> g.okSwap
@@ -31,6 +34,7 @@ package genesis
 //@   trusted
 //@   ensures result == nil <==> g.okPillars
 //@   modifies nothing
+//@   at-call Add assert[only-non-negative-pillar-amounts-enter-the-sum] val(arg2) >= 0
 // The abstract flag stays assumed; what IS checked on the body: a configuration passes only if every token standard some
 // genesis account holds is declared in the token configuration (the last of the three loops; `visited` is the ghost set of
 // keys the range loop over the map has produced).
